@@ -105,6 +105,7 @@ func runC09(c *core.Ctx, r *core.Reporter) {
 	c09okclobber(c, r)
 	c09pairs(c, r)
 	c09kany(c, r)
+	c09ifaceeq(c, r)
 	c09kwcross(c, r)
 	c09fmt(c, r)
 	c09div(c, r)
